@@ -20,8 +20,10 @@ const ED: [&[u8]; 9] = [
     fx!("ed25519-9.pk8.der"),
 ];
 const EC: [&[u8]; 3] = [fx!("ecdsa-1.pk8.der"), fx!("ecdsa-2.pk8.der"), fx!("ecdsa-3.pk8.der")];
-const RSA2: [&[u8]; 2] = [fx!("rsa2048-1.pk8.der"), fx!("rsa2048-2.pk8.der")];
-const RSA4: [&[u8]; 2] = [fx!("rsa4096-1.pk8.der"), fx!("rsa4096-2.pk8.der")];
+// the third 2048-bit key has the public exponent 0xC0000001 (DER INTEGER with a leading zero byte)
+const RSA2: [&[u8]; 3] = [fx!("rsa2048-1.pk8.der"), fx!("rsa2048-2.pk8.der"), fx!("rsa2048-3-bigexp.pk8.der")];
+// ("rsa4096" = the larger keys: two of 4096 bits and one of 3072 bits)
+const RSA4: [&[u8]; 3] = [fx!("rsa4096-1.pk8.der"), fx!("rsa4096-2.pk8.der"), fx!("rsa3072-1.pk8.der")];
 
 pub const FAMILIES: [&str; 6] =
     ["ed25519", "ecdsa", "rsa2048-256", "rsa2048-512", "rsa4096-256", "rsa4096-512"];
@@ -31,7 +33,7 @@ pub fn family_size(f: &str) -> usize {
     match f {
         "ed25519" => ED.len(),
         "ecdsa" => EC.len(),
-        _ => 2,
+        _ => 3,
     }
 }
 
